@@ -114,6 +114,7 @@ macro_rules! with_type {
             "SynA" => $cb!(qexec::synth::SynA, $($args)*),
             "SynOne" => $cb!(qexec::synth::SynOne, $($args)*),
             "SynX" => $cb!(qexec::synth::SynX, $($args)*),
+            "SynC" => $cb!(qexec::synth::SynC, $($args)*),
             other => panic!("HARNESS: unknown type {}", other),
         }
     };
@@ -128,7 +129,7 @@ macro_rules! term_step {
 
 fn handle(req: &Value) -> Value {
     if s(req, "op") == "types" {
-        return json!({"types": ["AmountT", "Mass", "Length", "Duration", "DataVolume", "Temperature", "SynA", "SynOne", "SynX"]});
+        return json!({"types": ["AmountT", "Mass", "Length", "Duration", "DataVolume", "Temperature", "SynA", "SynOne", "SynX", "SynC"]});
     }
     let tn = s(req, "tq");
     with_type!(tn, term_step, req)
